@@ -514,7 +514,15 @@ func (s *transactionStore) Watch(ctx context.Context, ch chan<- configapi.Transa
 			s.mu.Unlock()
 		}()
 
-		defer close(ch)
+		// Whichever way the watch ends, the channel is closed exactly once and the events the store may still
+		// hand to this watcher are drained: the store never blocks on a watcher that has gone away
+		defer func() {
+			close(ch)
+			go func() {
+				for range eventCh {
+				}
+			}()
+		}()
 
 		if options.Replay {
 			if options.TransactionID.Index > 0 {
@@ -537,9 +545,13 @@ func (s *transactionStore) Watch(ctx context.Context, ch chan<- configapi.Transa
 					if ctx.Err() != nil {
 						return
 					}
-					ch <- configapi.TransactionEvent{
+					select {
+					case ch <- configapi.TransactionEvent{
 						Type:        configapi.TransactionEvent_REPLAYED,
 						Transaction: *transaction,
+					}:
+					case <-ctx.Done():
+						return
 					}
 				}
 			} else {
@@ -562,7 +574,6 @@ func (s *transactionStore) Watch(ctx context.Context, ch chan<- configapi.Transa
 					transactions, err := s.getTransactions(ctx, *entry.Value)
 					if err != nil {
 						log.Error(err)
-						close(ch)
 						return
 					}
 
@@ -584,9 +595,13 @@ func (s *transactionStore) Watch(ctx context.Context, ch chan<- configapi.Transa
 						transaction := entry.Value
 						transaction.Version = uint64(entry.Version)
 						transaction.ID.Index = configapi.Index(entry.Index)
-						ch <- configapi.TransactionEvent{
+						select {
+						case ch <- configapi.TransactionEvent{
 							Type:        configapi.TransactionEvent_REPLAYED,
 							Transaction: *transaction,
+						}:
+						case <-ctx.Done():
+							return
 						}
 					}
 				}
@@ -596,13 +611,12 @@ func (s *transactionStore) Watch(ctx context.Context, ch chan<- configapi.Transa
 		for {
 			select {
 			case event := <-eventCh:
-				ch <- event
+				select {
+				case ch <- event:
+				case <-ctx.Done():
+					return
+				}
 			case <-ctx.Done():
-				close(ch)
-				go func() {
-					for range eventCh {
-					}
-				}()
 				return
 			}
 		}
